@@ -85,18 +85,17 @@ check:
 		goto pop;
 	}
 
-	/* otherwise check if the current exception overlaps with E */
+	/* otherwise check if the current exception names E, that is
+	 * whether it starts when E starts */
 	with (echs_range_t r = echs_event_range(e)) {
-		if (echs_instant_eq_p(r.beg, this->ex.beg) ||
-		    echs_range_overlaps_p(r, this->ex)) {
-			/* yes it does, or it is named by its start which is
-			 * all there is to events without duration */
+		if (echs_instant_eq_p(r.beg, this->ex.beg)) {
+			/* yes it does */
 			(void)echs_evstrm_pop(this->e);
 			e = echs_evstrm_next(this->e);
 			goto check;
-		} else if (echs_range_precedes_p(this->ex, r)) {
-			/* we can't say for sure yet as there could be
-			 * another exception in the range of E */
+		} else if (echs_instant_lt_p(this->ex.beg, r.beg)) {
+			/* this exception is past, E might be named by
+			 * the next one */
 			echs_event_t ex = echs_evstrm_pop(this->x);
 			this->ex = echs_event_range(ex);
 			goto check;
